@@ -298,14 +298,13 @@ Definition classes_of (a : nattrs) : list str :=
 
 Definition bool_str (b : bool) : str := if b then v_true else v_false.
 
-(* clean_astext(node): text of the node without raw nodes and image alts; None when a system_message
-   (whose text is not modelled) is inside *)
+(* clean_astext(node): text of the node without raw nodes, system messages and image alts *)
 Fixpoint astext_clean (n : node) : option str :=
   match n with
   | Text _ s => Some s
   | Elem _ tg _ cs =>
       if str_eqb tg n_raw then Some []
-      else if str_eqb tg k_system_message then None
+      else if str_eqb tg k_system_message then Some []     (* removed like raw nodes (since 921a88b) *)
       else (fix go (l : list node) : option str :=
               match l with
               | [] => Some []
